@@ -44,6 +44,10 @@ func inPos(r io.Reader) int                  { return 0 }
 func inEnd(r io.Reader) int                  { return 0 }
 func inByte(r io.Reader, i int) byte         { return 0 }
 func inErr(r io.Reader) error                { return nil }
+func inPosB(r io.ByteReader) int             { return 0 }
+func inEndB(r io.ByteReader) int             { return 0 }
+func inByteB(r io.ByteReader, i int) byte    { return 0 }
+func inErrB(r io.ByteReader) error           { return nil }
 func outLen(w io.Writer) int                 { return 0 }
 func outCalls(w io.Writer) int               { return 0 }
 func outByte(w io.Writer, i int) byte        { return 0 }
@@ -243,3 +247,71 @@ func eqvOption(a, b httphead.Option) bool { return a.Equal(b) }
 //@   ensures  [answer] n.accepted && !old(n.accepted) ==> eqvOption(accept, ufOptionOf(n.Parameters))
 //@   ensures  [decline] !(n.accepted && !old(n.accepted)) ==> accept.Size() == 0
 //@   assigns n.accepted, n.params
+
+// ---------------------------------------------------------------------------
+// permessage-deflate stream glue (C12, C18).
+
+func streamOK(r io.Reader) bool {
+	return 0 <= inPos(r) && inPos(r) <= inEnd(r) && inEnd(r) <= 1<<48
+}
+
+//@ iface io.Reader.Read(p []byte) (n int, err error)
+//@   requires [stream] streamOK(self)
+//@   ensures  [n]    0 <= n && n <= len(p) && n <= inEnd(self)-old(inPos(self))
+//@   ensures  [pos]  inPos(self) == old(inPos(self))+n
+//@   ensures  [data] forall(0, n, func(k int) bool { return p[k] == inByte(self, old(inPos(self))+k) })
+//@   ensures  [err]  err != nil ==> inPos(self) == inEnd(self) && err == inErr(self)
+//@   assigns bytes(p), stream(self)
+
+//@ iface io.ByteReader.ReadByte() (b byte, err error)
+//@   ensures  [ok]   err == nil ==> old(inPosB(self)) < inEndB(self) && b == inByteB(self, old(inPosB(self))) && inPosB(self) == old(inPosB(self))+1
+//@   ensures  [err]  err != nil ==> inPosB(self) == old(inPosB(self)) && inPosB(self) == inEndB(self) && err == inErrB(self)
+//@   assigns stream(self)
+
+//@ iface io.Writer.Write(p []byte) (n int, err error)
+//@   ensures  [calls] outCalls(self) == old(outCalls(self))+1
+//@   ensures  [n]     0 <= n && n <= len(p) && (err == nil ==> n == len(p))
+//@   ensures  [len]   outLen(self) == old(outLen(self))+n
+//@   ensures  [data]  forall(0, n, func(k int) bool { return outByte(self, old(outLen(self))+k) == p[k] })
+//@   ensures  [keep]  forall(0, old(outLen(self)), func(k int) bool { return outByte(self, k) == old(outByte(self, k)) })
+//@   assigns stream(self)
+
+// specTail is what the reader appends to the peer's bytes (RFC 7692 §7.2.2: 00 00 ff ff, then an
+// empty final stored block so that the inflater sees the end of the stream).
+func specTailByte(i int) byte {
+	switch i {
+	case 0, 1, 5, 6:
+		return 0
+	case 2, 3, 7, 8:
+		return 0xff
+	case 4:
+		return 1
+	}
+	return 0
+}
+
+func invSuffixed(r *suffixedReader) bool {
+	return 0 <= r.pos && r.pos <= 9 && forall(0, 9, func(k int) bool { return r.suffix[k] == specTailByte(k) })
+}
+
+//@ func suffixedReader.reset
+//@   props C12 C18
+//@   ensures [asnew] r.r == src && r.pos == 0 && r.suffix == old(r.suffix)
+//@   assigns r.r, r.pos
+
+//@ func suffixedReader.Read
+//@   props C12 C15
+//@   requires [inv]  invSuffixed(r) && (r.r != nil ==> streamOK(r.r)) && notPartOf(p, r)
+//@   ensures  [src]  old(r.r) != nil ==> n <= inEnd(old(r.r))-old(inPos(r.r)) && inPos(old(r.r)) == old(inPos(r.r))+n && forall(0, n, func(k int) bool { return p[k] == inByte(old(r.r), old(inPos(r.r))+k) }) && r.pos == old(r.pos)
+//@   ensures  [eof]  old(r.r) != nil ==> (r.r == nil) == (inErr(old(r.r)) == io.EOF && inPos(old(r.r)) == inEnd(old(r.r)) && err == nil && r.r != old(r.r)) && (r.r != nil ==> r.r == old(r.r))
+//@   ensures  [tail] old(r.r) == nil ==> n == iteInt(len(p) < 9-old(r.pos), len(p), 9-old(r.pos)) && r.pos == old(r.pos)+n && forall(0, n, func(k int) bool { return p[k] == specTailByte(old(r.pos)+k) }) && (err != nil) == (old(r.pos) >= 9) && r.r == nil
+//@   ensures  [inv]  invSuffixed(r) && 0 <= n && n <= len(p)
+//@   assigns r.r, r.pos, bytes(p), stream(r.r)
+
+//@ func suffixedReader.ReadByte
+//@   props C12 C15
+//@   requires [inv]  invSuffixed(r) && (r.r != nil ==> streamOK(r.r))
+//@   ensures  [src]  old(r.r) != nil && old(inPos(r.r)) < inEnd(old(r.r)) && err == nil ==> b == inByte(old(r.r), old(inPos(r.r))) && inPos(old(r.r)) == old(inPos(r.r))+1 && r.pos == old(r.pos)
+//@   ensures  [next] err == nil && !(old(r.r) != nil && old(inPos(r.r)) < inEnd(old(r.r))) ==> b == specTailByte(old(r.pos)) && r.pos == old(r.pos)+1 && old(r.pos) < 9 && r.r == nil
+//@   ensures  [inv]  invSuffixed(r)
+//@   assigns r.r, r.pos, stream(r.r)
